@@ -73,6 +73,10 @@ func variant(g gGraph, p []int, rng *rand.Rand, reverse bool) gGraph {
 		errs := append([]string{}, nd.Errs...)
 		if rng != nil {
 			rng.Shuffle(len(errs), func(a, b int) { errs[a], errs[b] = errs[b], errs[a] })
+		} else if reverse {
+			for i, j := 0, len(errs)-1; i < j; i, j = i+1, j-1 {
+				errs[i], errs[j] = errs[j], errs[i]
+			}
 		}
 		h.Nodes[p[i]] = gNode{Ver: nd.Ver, Errs: errs}
 	}
@@ -110,7 +114,7 @@ func runMember(in gGraph) gMember {
 }
 
 func randomGraph(rng *rand.Rand) gGraph {
-	n := 2 + rng.Intn(39)
+	n := 1 + rng.Intn(40)
 	vers := []string{"a", "b", "c", "d", "e", "f", "g", "h"}[:2+rng.Intn(7)]
 	g := gGraph{Edges: []gEdge{}}
 	for i := 0; i < n; i++ {
@@ -170,9 +174,7 @@ func cmdGraph(args []string) error {
 				full[i+1] = x + 1
 			}
 			o.Members = append(o.Members, runMember(variant(g, full, nil, false)))
-			if len(g.Edges) > 1 {
-				o.Members = append(o.Members, runMember(variant(g, full, nil, true)))
-			}
+			o.Members = append(o.Members, runMember(variant(g, full, nil, true)))
 		}
 		if err := w.Write(&o); err != nil {
 			return err
